@@ -217,6 +217,8 @@ func CollFamilies() []CollSpec {
 		// ill-formed UTF-8 (Latin-1 bytes, stray 0xFF/0xFE, a truncated sequence): the collator weights each stray byte on its own,
 		// differently from U+FFFD; string and byte-slice keys only (a rune slice cannot hold them)
 		{Name: "ILLFORMED", Free: []string{"a\xffb", "a\ufffdb", "ab", "caf\xe9", "caf\u00e9", "a\xff\xfeb", "\xe6\x97"}, Probes: []string{"a\xfeb", "caf", "\xe6\x97\xa5"}},
+		// characters outside the basic plane (four UTF-8 bytes each: emoji, CJK extension B, mathematical digits), alone and mixed
+		{Name: "ASTRAL", Free: []string{"\U0001F600", "\u4f60\u597d\U0001F600", "\U00020000", "a\U0001F600", "\U0001D7D8\U0001D7D9", "\U0001F600\U0001F601"}, Probes: []string{"\U0001F601", "\U00020001", "a"}},
 		{Name: "IGNORABLE", Free: []string{"", "\u0301", "\u0301\u0300", "a", "\u0300", "a\u0301"}, Probes: []string{"\u00ad", "a\u00ad", "\u0302", "\u0300\u0301"}},
 	}
 }
